@@ -86,11 +86,24 @@ def main():
             return out[0]
         return tuple(out)
 
+    def mkidx(kind, v):
+        if kind == 'list':
+            return [int(x) for x in v]
+        if kind == 'tuple':
+            return tuple(int(x) for x in v)
+        if kind == 'ndarray':
+            return np.array(v, dtype=int)
+        if kind == 'intp':
+            return [np.intp(x) for x in v]
+        raise ValueError(kind)
+
     def mkmat(B, sparse=False):
         if B is None:
             return None
         A = np.array(B['d'], dtype=float).reshape(B['r'], B['c'])
         return scipy.sparse.csr_matrix(A) if sparse else A
+
+    flags = {}
 
     def do_op(op, slots):
         k = op['op']
@@ -117,7 +130,12 @@ def main():
             U, X1, X2 = T.join_tucker_bases(a, b)
             return T.TuckerTensor(U, X2)
         if k == 'getitem':
-            return a[mkindex(op['I'])]
+            Iobj = mkindex(op['I'])
+            snap = repr(Iobj)
+            try:
+                return a[Iobj]
+            finally:
+                flags['index_unchanged'] = repr(Iobj) == snap
         if k == 'squeeze':
             ax = op['axis']
             if ax is None:
@@ -166,8 +184,11 @@ def main():
             opnd = [slots[op[k_]] for k_ in ('a', 'b') if k_ in op] + [slots[i_] for i_ in op.get('xs', [])]
             before = [json.dumps(dump(x_), sort_keys=True) if x_ is not None else None for x_ in opnd]
             try:
+                flags.clear()
                 with np.errstate(all='ignore'):
                     y = do_op(op, slots)
+                if 'index_unchanged' in flags:
+                    r['index_unchanged'] = flags['index_unchanged']
                 r['operands_unchanged'] = before == [json.dumps(dump(x_), sort_keys=True) if x_ is not None else None
                                                      for x_ in opnd]
                 r['status'] = 'Ok'
@@ -215,14 +236,26 @@ def main():
             else:
                 g = lowrank.TensorGenerator.from_array(X)
             o = case['o']
+            Iobj = None
             if o['k'] == 'get':
-                y = g[mkindex(o['I'])]
+                Iobj = mkindex(o['I'])
+                snap = repr(Iobj)
+                y = g[Iobj]
             elif o['k'] == 'asarray':
                 y = g.asarray()
             elif o['k'] == 'entry':
-                y = np.asarray(g.entry(tuple(o['I'])))
+                Iobj = mkidx(o.get('ikind', 'tuple'), o['I'])
+                snap = repr(Iobj)
+                y = np.asarray(g.entry(Iobj))
             else:
-                y = g.matrix_at(tuple(o['I']), axes=tuple(o['axes'])).asarray()
+                Iobj = mkidx(o.get('ikind', 'tuple'), o['I'])
+                snap = repr(Iobj)
+                sub = g.matrix_at(Iobj, axes=tuple(o['axes']))
+                y = sub.asarray()
+                y2 = sub.asarray()          # a second evaluation of the same slice generator
+                r['second_equal'] = bool(np.array_equal(y, y2))
+            if Iobj is not None:
+                r['index_unchanged'] = repr(Iobj) == snap
             r['status'] = 'Ok'
             r['value'] = dfull(y)
             r['pytype'] = type(y).__name__
@@ -231,6 +264,49 @@ def main():
             r['msg'] = str(e)[:200]
         res_gen.append(r)
     out['gen'] = res_gen
+
+    # ---- histories on TensorGenerator objects: sibling slice generators built from ONE index object,
+    #      evaluated in interleaved order; every index argument is snapshotted after every step --------
+    res_gh = []
+    for case in payload.get('genhist', []):
+        X = np.array(case['X']['d'], dtype=float).reshape(case['X']['sh'])
+        X0 = X.copy()
+        if case.get('multi'):
+            root = lowrank.TensorGenerator(X.shape, multientryfunc=lambda idx: np.array([X[tuple(i)] for i in idx]))
+        else:
+            root = lowrank.TensorGenerator.from_array(X)
+        gens = [root]
+        idxobjs = []
+        steps = []
+        for st in case['steps']:
+            r = {}
+            try:
+                k = st['s']
+                if k == 'index':
+                    idxobjs.append(mkidx(st['kind'], st['v']))
+                elif k == 'matrix_at':
+                    gens.append(gens[st['gen']].matrix_at(idxobjs[st['idx']], axes=tuple(st['axes'])))
+                    r['shape'] = [int(n) for n in gens[-1].shape]
+                elif k == 'asarray':
+                    r['value'] = dfull(gens[st['gen']].asarray())
+                elif k == 'entry':
+                    r['value'] = dfull(np.asarray(gens[st['gen']].entry(idxobjs[st['idx']])))
+                elif k == 'get':
+                    r['value'] = dfull(gens[st['gen']][mkindex(st['I'])])
+                else:
+                    raise ValueError(k)
+                r['status'] = 'Ok'
+            except Exception as e:  # noqa
+                r['status'] = errclass(e)
+                r['msg'] = str(e)[:200]
+                if st['s'] == 'matrix_at':
+                    gens.append(None)
+            r['idxobjs'] = [[int(x) for x in o] for o in idxobjs]
+            r['idxtypes'] = [type(o).__name__ for o in idxobjs]
+            r['array_unchanged'] = bool(np.array_equal(X, X0))
+            steps.append(r)
+        res_gh.append(steps)
+    out['genhist'] = res_gh
 
     # ---- CanonicalOperator -----------------------------------------------------
     def mkop(terms, sparse):
